@@ -50,7 +50,7 @@ class C08(fw.Prop):
             "bytes), wrong challenge, wrong key, wrong authentication key, wrong title, counter field altered, every non-success status with and without a "
             "valid proof, ACTION responses without data / with error; all orders of the four steps (service requests tried in the HLS sub-states); each "
             "followed by a GET; every step compared with the model; the harness also verifies the client's reply against a real GMAC; "
-            "non-trivial = distinct history")
+            "a second association on the same connection with another title / challenge answered with the first association's proof; meter challenges ending in blanks / zero bytes; answers whose counter field and tag disagree (zero field, transport counter); the reply must be over the challenge as sent; non-trivial = distinct history")
     trusted_base = ["the symbolic-MAC abstraction (ideal MAC, DESIGN.md §5b)", "extract.py (HLS rows of the transition table)"]
     assumptions = ["the proof is the octet string security-control || counter || 12-byte MAC; other layouts are 'malformed'"]
     technique = "Lean 4 proof over the model with an ideal MAC: form of the client's reply, no service request in the HLS sub-states, ready ⇔ valid meter answer, otherwise not associated; differential correspondence with real GMAC on the harness side incl. every single-bit alteration"
